@@ -10,6 +10,7 @@ QUICK_RUNS = 60000
 THOROUGH_RUNS = 2000000
 QUICK_WALL = 100
 THOROUGH_WALL = 1500
+CORPUS_VARIANTS = True      # past findings are replayed under every key kind and action relabelling
 CHUNK = 100
 RULE = ("one run = one generated proper table MDP with uniform action sets x (threshold m, tolerance, episodes), with the "
         "scheduler deciding every initial state, tie action and successor; the full oracle is evaluated at every end of "
@@ -235,7 +236,12 @@ def _execute(rm, view, cfg, ctx, sched):
                     ctx.probe('learner_reused')
                     state['main'] = False
                     W0, ctx.W = ctx.W, game_W(sview)
-                    learner.train_on(smdp_)
+                    _first = learner.train_on(smdp_)
+                    for _s in range(view.N):          # the first result is used before the object is used again
+                        try:
+                            _first.policy.action_dist(sk[_s])
+                        except Exception:
+                            pass
                     ctx.W = W0
                     state['main'] = True
             res = learner.train_on(mdp)
